@@ -107,8 +107,94 @@ def scan_function(f):
     return out
 
 
-def report(repo, R, module_prefixes, rule="PITFALL", kinds=None):
-    """Scan every function of the named modules; findings are reported under `rule` (only the pattern kinds in `kinds`)."""
+def only_feeds_higher_rows(fn, node):
+    """Does the branch decided by the comparison `node` only select values that end up in stores `T[k + 1, ...]` / `T[1:2, ...]`
+    (first index provably >= 1) of a table?  Then an operator that requests a table with a single row on that axis (moment order 0:
+    overlap, kinetic energy, momentum) cannot observe which branch was taken.  Forward slice over names, inside one function."""
+    holder = None
+    for st in ast.walk(fn):
+        if isinstance(st, ast.If) and any(n is node for n in ast.walk(st.test)):
+            holder = st
+    if holder is None:
+        return False
+    tainted = set()
+    for b in holder.body + holder.orelse:
+        for x in ast.walk(b):
+            if isinstance(x, (ast.Return, ast.Raise)) or (isinstance(x, (ast.Assign, ast.AugAssign)) and any(isinstance(t, ast.Subscript) for t in (x.targets if isinstance(x, ast.Assign) else [x.target]))):
+                return False  # the branch itself returns / stores
+            if isinstance(x, ast.Assign):
+                for t in x.targets:
+                    tainted |= {n.id for n in ast.walk(t) if isinstance(n, ast.Name)}
+    if not tainted:
+        return False
+
+    def high_row(target, loops):
+        if not isinstance(target, ast.Subscript):
+            return False
+        sl = target.slice
+        first = sl.elts[0] if isinstance(sl, ast.Tuple) and sl.elts else sl
+        if isinstance(first, ast.Slice):
+            return isinstance(first.lower, ast.Constant) and isinstance(first.lower.value, int) and first.lower.value >= 1
+        if isinstance(first, ast.Constant):
+            return isinstance(first.value, int) and first.value >= 1
+        if isinstance(first, ast.BinOp) and isinstance(first.op, ast.Add) and isinstance(first.left, ast.Name) and first.left.id in loops \
+                and isinstance(first.right, ast.Constant) and isinstance(first.right.value, int):
+            return loops[first.left.id] + first.right.value >= 1
+        return False
+
+    changed = True
+    sinks_ok = True
+    seen_use = False
+    while changed:
+        changed = False
+
+        def visit(stmts, loops):
+            nonlocal changed, sinks_ok, seen_use
+            for st in stmts:
+                if st is holder:
+                    continue
+                if isinstance(st, ast.For):
+                    lp = dict(loops)
+                    it = st.iter
+                    if isinstance(st.target, ast.Name) and isinstance(it, ast.Call) and dotted(it.func) == "range" and it.args:
+                        lo = it.args[0] if len(it.args) >= 2 else ast.Constant(value=0)
+                        if isinstance(lo, ast.Constant) and isinstance(lo.value, int):
+                            lp[st.target.id] = lo.value
+                    if {n.id for n in ast.walk(st.iter) if isinstance(n, ast.Name)} & tainted:
+                        sinks_ok = False
+                    visit(st.body, lp)
+                    continue
+                if isinstance(st, (ast.If, ast.While, ast.With)):
+                    test = getattr(st, "test", None)
+                    if test is not None and {n.id for n in ast.walk(test) if isinstance(n, ast.Name)} & tainted:
+                        sinks_ok = False
+                    visit(getattr(st, "body", []), loops)
+                    visit(getattr(st, "orelse", []), loops)
+                    continue
+                used = {n.id for n in ast.walk(st) if isinstance(n, ast.Name) and isinstance(n.ctx, ast.Load)} & tainted
+                if not used:
+                    continue
+                seen_use = True
+                if isinstance(st, ast.Assign) and len(st.targets) == 1 and isinstance(st.targets[0], ast.Subscript):
+                    if not high_row(st.targets[0], loops):
+                        sinks_ok = False
+                elif isinstance(st, ast.Assign) and all(isinstance(t, ast.Name) for t in st.targets):
+                    for t in st.targets:
+                        if t.id not in tainted:
+                            tainted.add(t.id)
+                            changed = True
+                else:
+                    sinks_ok = False
+        visit(fn.body, {})
+        if not sinks_ok:
+            return False
+    return seen_use and sinks_ok
+
+
+def report(repo, R, module_prefixes, rule="PITFALL", kinds=None, single_row_tables=False):
+    """Scan every function of the named modules; findings are reported under `rule` (only the pattern kinds in `kinds`).
+    single_row_tables: the calling property's operator requests recursion tables with one row on their first axis (order 0); a
+    geometric comparison that only selects values for the higher rows is then not its concern."""
     n = 0
     for f in repo.all_functions():
         if not any(f.module.name == m or f.module.name.startswith(m + ".") for m in module_prefixes):
@@ -116,6 +202,9 @@ def report(repo, R, module_prefixes, rule="PITFALL", kinds=None):
         n += 1
         for kind, node, msg in scan_function(f):
             if kinds is not None and kind not in kinds:
+                continue
+            if single_row_tables and kind == "TOL-GEOM" and only_feeds_higher_rows(f.node, node):
+                R.extra.setdefault("geometry_tests_feeding_only_higher_orders", []).append(f"{f.where(node)} {ast.unparse(node)[:80]}")
                 continue
             R.fail(rule, f.site, f"{kind}: {ast.unparse(node)[:80]}", f"[{kind}] {msg}", where=f.where(node), expected="result independent of the input's dtype / of repeated entries")
     R.ok(rule, ",".join(m[len("gbasis."):] for m in module_prefixes)[:80], f"{n} functions scanned for dtype / repeated-index pitfalls")
